@@ -19,6 +19,12 @@ from .catalogue import OPS
 CONFIGS = ["seq_env", "seq_async", "preempt", "preempt_all"]
 
 
+def _fp_noop(kind, flag):
+    """numpy floating point error handler of the simulated processes: a distinctive, non-default error state
+    ('call' with a no-op) so that a library call that changes the state and does not restore it is noticed"""
+    return None
+
+
 def new_stats() -> dict:
     return {"steps": 0, "lines": 0, "reasks": 0, "numeric_noise": 0, "domain_exc": 0, "ok_by_op": {}, "exc_by_op": {},
             "faults_fired": {}, "fault_sites": {}, "switch_sites": {}, "preemptions": 0}
@@ -31,7 +37,8 @@ def worker_init() -> None:
     global _ready
     if _ready:
         return
-    np.seterr(all="ignore")
+    np.seterrcall(_fp_noop)
+    np.seterr(all="call")
     import warnings
 
     warnings.simplefilter("ignore")
